@@ -66,6 +66,9 @@ type wcase struct {
 	Text    string `json:"text"`
 	Width   int    `json:"width"`
 	Scanner string `json:"scanner"`
+	// Measure: "" = the draw context measures with vaxis.Characters;
+	// otherwise what its Characters function does differently
+	Measure string `json:"context_measures,omitempty"`
 }
 
 func isSpaceG(g string) bool {
@@ -245,7 +248,7 @@ func segmentPosition(in []vaxis.Character, i, width int) string {
 		}
 		if off > pos && off < pos+len(seg) {
 			sw := 0
-			for _, c := range vaxis.Characters(strings.TrimRightFunc(seg, unicode.IsSpace)) {
+			for _, c := range curChars(strings.TrimRightFunc(seg, unicode.IsSpace)) {
 				sw += c.Width
 			}
 			if sw > width {
@@ -266,21 +269,45 @@ func text(cs []vaxis.Character) string {
 	return sb.String()
 }
 
+// curChars is the measuring function of the draw context in use.
+var curChars = vaxis.Characters
+
+// altCharacters is a measuring function as an application on a terminal
+// without grapheme clustering supplies it (vxfw.App re-measures every
+// cluster): the same clusters, but a base letter with a combining mark counts
+// two columns.
+func altCharacters(s string) []vaxis.Character {
+	cs := vaxis.Characters(s)
+	for i := range cs {
+		if r := []rune(cs[i].Grapheme); len(r) > 1 && cs[i].Width == 1 {
+			cs[i].Width = 2
+		}
+	}
+	return cs
+}
+
 func runPlain(w *harness.W, s string, width int) {
-	wc := wcase{s, width, "plain-softwrap"}
-	in := vaxis.Characters(s)
+	runPlainWith(w, s, width, vaxis.Characters, "")
+}
+
+func runPlainWith(w *harness.W, s string, width int, chars func(string) []vaxis.Character, name string) {
+	curChars = chars
+	defer func() { curChars = vaxis.Characters }()
+	c := vxfw.DrawContext{Characters: chars}
+	wc := wcase{Text: s, Width: width, Scanner: "plain-softwrap", Measure: name}
+	in := chars(s)
 	var lines []line
 	steps := 0
 	ok := true
 	val, stack, panicked := harness.Recover(func() {
 		sc := text2.NewSoftwrapScanner(s, uint16(width))
-		for sc.Scan(ctx) {
+		for sc.Scan(c) {
 			steps++
 			if steps > 2*len(in)+2 {
 				ok = false
 				return
 			}
-			lines = append(lines, line{g: vaxis.Characters(sc.Text())})
+			lines = append(lines, line{g: chars(sc.Text())})
 		}
 	})
 	finish(w, wc, in, nil, lines, ok, val, stack, panicked)
@@ -290,7 +317,7 @@ func runPlain(w *harness.W, s string, width int) {
 }
 
 func runRich(w *harness.W, s string, width int) {
-	wc := wcase{s, width, "rich-softwrap"}
+	wc := wcase{Text: s, Width: width, Scanner: "rich-softwrap"}
 	in := vaxis.Characters(s)
 	cells := make([]vaxis.Cell, len(in))
 	ids := make([]int, len(in))
@@ -399,7 +426,7 @@ func richDrawCheck(w *harness.W, wc wcase, in []vaxis.Character, lines []line) {
 }
 
 func runHard(w *harness.W, s string) {
-	wc := wcase{s, 0, "rich-hardwrap"}
+	wc := wcase{Text: s, Width: 0, Scanner: "rich-hardwrap"}
 	in := vaxis.Characters(s)
 	cells := make([]vaxis.Cell, len(in))
 	for i, c := range in {
@@ -428,7 +455,7 @@ func runHard(w *harness.W, s string) {
 }
 
 func finish(w *harness.W, wc wcase, in []vaxis.Character, ids []int, lines []line, ok bool, val, stack string, panicked bool) {
-	w.Case(fmt.Sprintf("%s|%d|%s", wc.Scanner, wc.Width, wc.Text))
+	w.Case(fmt.Sprintf("%s|%s|%d|%s", wc.Scanner, wc.Measure, wc.Width, wc.Text))
 	w.Count("scans_"+wc.Scanner, 1)
 	if panicked {
 		w.ViolationStack("panic:"+harness.PanicKey(val, stack), fmt.Sprintf("%s panicked on %q at width %d: %s", wc.Scanner, wc.Text, wc.Width, val), wc, val, "no panic", stack)
@@ -453,7 +480,7 @@ func drawCheck(w *harness.W, wc wcase, lines []line) {
 		return
 	}
 	t := text2.New(wc.Text)
-	dctx := vxfw.DrawContext{Max: vxfw.Size{Width: uint16(wc.Width), Height: uint16(len(lines) + 5)}, Characters: vaxis.Characters}
+	dctx := vxfw.DrawContext{Max: vxfw.Size{Width: uint16(wc.Width), Height: uint16(len(lines) + 5)}, Characters: curChars}
 	var s vxfw.Surface
 	val, stack, panicked := harness.Recover(func() { s, _ = t.Draw(dctx) })
 	w.Count("draws", 1)
@@ -530,11 +557,15 @@ func (c check) Run(w *harness.W, b harness.Batch) {
 					for width := 0; width <= 7; width++ {
 						runPlain(w, str, width)
 						runRich(w, str, width)
+						if l <= 4 {
+							// the draw context measures differently from vaxis.Characters
+							runPlainWith(w, str, width, altCharacters, "a base letter with a combining mark counts two columns")
+						}
 					}
 					runHard(w, str)
 					w.End()
 					if q%9973 == 0 {
-						w.Sample(wcase{str, 3, "plain-softwrap"})
+						w.Sample(wcase{Text: str, Width: 3, Scanner: "plain-softwrap"})
 					}
 				}
 				for j := l - 1; j >= 0; j-- {
